@@ -187,6 +187,11 @@ _CLASSES = None
 
 
 def class_by_name(n: str):
+    """`Cls` -> the exported class; `Cls!` -> the class with the constructor flag optional=True pre-set"""
+    if n.endswith("!"):
+        import functools
+
+        return functools.partial(getattr(dltype, n[:-1]), optional=True)
     return getattr(dltype, n)
 
 
@@ -303,4 +308,27 @@ def handle(line: str) -> str:
 
 
 def run_impl(lines: list[str]) -> list[str]:
-    return [handle(l) for l in lines]
+    """Run every operation line on the real code.  Under the supervisor (main.py) the index of the line being run
+    is published through a small memory-mapped file, so that an operation on which the tree under test never
+    finishes (e.g. a regrouped power tower: one C call that holds the GIL, no in-process timer can fire) is
+    reported by the supervisor as a failing input instead of hanging the check."""
+    import mmap
+    import os
+    import struct
+
+    hb = os.environ.get("DLTYPE_VERIF_HEARTBEAT")
+    if not hb or not os.path.exists(hb):
+        return [handle(l) for l in lines]
+    with open(os.environ["DLTYPE_VERIF_IMPL_LINES"], "w") as f:
+        f.write("\n".join(lines))
+    out = []
+    with open(hb, "r+b") as fh:
+        mm = mmap.mmap(fh.fileno(), 16)
+        try:
+            for i, l in enumerate(lines):
+                struct.pack_into("<qq", mm, 0, 1, i)
+                out.append(handle(l))
+        finally:
+            struct.pack_into("<qq", mm, 0, 0, 0)
+            mm.close()
+    return out
